@@ -15,12 +15,16 @@ cd = os.path.join(HERE, 'claims')
 if os.path.isdir(cd):
     for fn in sorted(os.listdir(cd)):
         if fn.endswith('.json'):
-            meta[fn[:-5]] = json.load(open(os.path.join(cd, fn)))
+            try:
+                meta[fn[:-5]] = json.load(open(os.path.join(cd, fn)))
+            except ValueError:
+                print('skipping unreadable claim file', fn)
 
+ready = set(json.load(open(os.path.join(HERE, 'ready.json'))))
 checks, na = [], []
 for p in props:
     pid = p['id']
-    if os.path.exists(os.path.join(VERIF, 'harness', 'drive_%s.py' % pid)) and pid in meta:
+    if pid in ready and os.path.exists(os.path.join(VERIF, 'harness', 'drive_%s.py' % pid)) and pid in meta:
         m = meta[pid]
         checks.append({
             'property_id': pid,
